@@ -169,10 +169,40 @@ def enum_fixtures(tier):
     for f in ("tests/testdata/repodata_sample.json", "tests/testdata/repodata_short_signed_sample.json"):
         for i in range(3):
             yield {"file": f, "seed": keys.POOL[i].hex()}
+    for n in ([65, 300] if tier == "quick" else [65, 1025, 5000]):
+        yield {"synthetic": n, "seed": keys.POOL[3].hex()}
+
+
+def _synthetic(n):
+    """many artifacts (no implementation limit on their number is part of the property)"""
+    pk = {"pkg-%05d-1.0-0.tar.bz2" % i: {"name": "pkg-%05d" % i, "version": "1.0", "build_number": i % 7, "depends": [], "size": i}
+          for i in range(n)}
+    pc = {"pkg-%05d-1.0-0.conda" % i: {"name": "pkg-%05d" % i, "version": "1.0", "build_number": i % 7, "depends": [], "size": i + 1}
+          for i in range(n // 2)}
+    return {"info": {"subdir": "linux-64"}, "packages": pk, "packages.conda": pc, "repodata_version": 1}
+
+
+def _check_big(case):
+    seed = bytes.fromhex(case["seed"])
+    doc = _synthetic(case["synthetic"])
+    d = tempfile.mkdtemp(prefix="c11b-")
+    try:
+        fn = os.path.join(d, "repodata.json")
+        with open(fn, "wb") as f:
+            f.write(canon(doc))
+        _sign(fn, seed)
+        if open(fn, "rb").read() != canon(expected_after(doc, seed)):
+            raise Violation("a repodata file with %d + %d artifacts is not signed completely and faithfully"
+                            % (case["synthetic"], case["synthetic"] // 2), bucket="output differs: many artifacts")
+    finally:
+        shutil.rmtree(d, ignore_errors=True)
+    return {"nontrivial": True, "labels": ["artifacts=%d" % (case["synthetic"] + case["synthetic"] // 2)]}
 
 
 def check_fixture(case):
     from vlib.runner import REPO
+    if "synthetic" in case:
+        return _check_big(case)
     doc = json.load(open(os.path.join(REPO, case["file"]), "rb"))
     return check_case({"doc": doc, "seed": case["seed"], "style": "indent4", "resign_edit": True})
 
